@@ -1,9 +1,11 @@
 (* C06/FModel.v -- functionals: Functional.derivative(x) = <gradient(x), .>
    (odl/solvers/functional/functional.py).  Executable definitions only.
 
-   Functionals on (unweighted) rn(n) with the gradient RULES of the functional
-   arithmetic at value level: [feval f x] is f(x), [fgrad f x] is the element
-   f.gradient(x); Functional.derivative(x) is InnerProductOperator(fgrad f x). *)
+   Functionals on rn(n) / uniform_discr with weighting w (array of per-entry
+   weights; <x, y> = sum_i w_i x_i y_i) and the gradient RULES of the functional
+   arithmetic at value level: [feval w f x] is f(x), [fgrad w f x] is the element
+   f.gradient(x); Functional.derivative(x) is InnerProductOperator(fgrad w f x),
+   i.e. d |-> <d, fgrad w f x>_w. *)
 From Coq Require Import ZArith QArith List Bool.
 From Verif Require Import Base.Num Base.Vec.
 Import ListNotations.
@@ -27,14 +29,15 @@ Inductive fexpr :=
 | FProd (f g : fexpr)                      (* FunctionalProduct *)
 | FQuot (f g : fexpr)                      (* FunctionalQuotient *)
 | FRVec (f : fexpr) (v : list T)           (* FunctionalRightVectorMult:  f(v * x) *)
-| FCompM (f : fexpr) (n : nat) (rows : list (list T)).  (* FunctionalComp(f, MatrixOperator(rows)) on rn(n) *)
+| FCompM (f : fexpr) (w' : list T) (n : nat) (rows : list (list T)).
+    (* FunctionalComp(f, MatrixOperator(rows)) on rn(n); w' = weights of the matrix operator's range *)
 
 Fixpoint fdim (f : fexpr) : nat :=
   match f with
   | FL2Sq n | FL2 n | FL1 n | FConst n _ => n
   | FLScal f _ | FRScal f _ | FSum f _ | FScalarSum f _ | FTransl f _ | FQP f _ _ _
   | FProd f _ | FQuot f _ | FRVec f _ => fdim f
-  | FCompM _ n _ => n
+  | FCompM _ _ n _ => n
   end.
 
 Fixpoint fwt (f : fexpr) : bool :=
@@ -45,25 +48,37 @@ Fixpoint fwt (f : fexpr) : bool :=
   | FTransl f t => fwt f && Nat.eqb (length t) (fdim f)
   | FQP f _ u _ => fwt f && Nat.eqb (length u) (fdim f)
   | FRVec f v => fwt f && Nat.eqb (length v) (fdim f)
-  | FCompM f n rows => fwt f && Nat.eqb (length rows) (fdim f) && forallb (fun r => Nat.eqb (length r) n) rows
+  | FCompM f w' n rows =>
+      fwt f && Nat.eqb (length rows) (fdim f) && forallb (fun r => Nat.eqb (length r) n) rows
+      && Nat.eqb (length w') (fdim f)
+  end.
+(* the gradient of a composition uses op.derivative(x).adjoint, which for MatrixOperator is the plain
+   transpose: a true adjoint only between unweighted spaces (recorded finding otherwise) *)
+Definition all_one (w : list T) : bool := forallb (fun a => a =? none_) w.
+Fixpoint fok (w : list T) (f : fexpr) : bool :=
+  match f with
+  | FL2Sq _ | FL2 _ | FL1 _ | FConst _ _ => true
+  | FLScal f _ | FRScal f _ | FScalarSum f _ | FTransl f _ | FQP f _ _ _ | FRVec f _ => fok w f
+  | FSum f g | FProd f g | FQuot f g => fok w f && fok w g
+  | FCompM f w' _ _ => all_one w && all_one w' && fok w' f
   end.
 
-Fixpoint feval (f : fexpr) (x : list T) : T :=
+Fixpoint feval (w : list T) (f : fexpr) (x : list T) : T :=
   match f with
-  | FL2Sq _ => dot x x
-  | FL2 _ => rt (dot x x)
-  | FL1 _ => sum1 x
+  | FL2Sq _ => wdot w x x
+  | FL2 _ => rt (wdot w x x)
+  | FL1 _ => sumf (vmul w (map nabs x))          (* |x|.inner(one) *)
   | FConst _ c => c
-  | FLScal f s => s * feval f x
-  | FRScal f s => feval f (vscal s x)
-  | FSum f g => feval f x + feval g x
-  | FScalarSum f c => feval f x + c
-  | FTransl f t => feval f (vsub x t)
-  | FQP f a u c => feval f x + a * dot x x + dot x u + c
-  | FProd f g => feval f x * feval g x
-  | FQuot f g => feval f x / feval g x
-  | FRVec f v => feval f (vmul x v)
-  | FCompM f _ rows => feval f (mvec rows x)
+  | FLScal f s => s * feval w f x
+  | FRScal f s => feval w f (vscal s x)
+  | FSum f g => feval w f x + feval w g x
+  | FScalarSum f c => feval w f x + c
+  | FTransl f t => feval w f (vsub x t)
+  | FQP f a u c => feval w f x + a * wdot w x x + wdot w x u + c
+  | FProd f g => feval w f x * feval w g x
+  | FQuot f g => feval w f x / feval w g x
+  | FRVec f v => feval w f (vmul x v)
+  | FCompM f w' _ rows => feval w' f (mvec rows x)
   end.
 
 (* M^T g  written as  sum_i g_i * row_i *)
@@ -74,25 +89,25 @@ Fixpoint mtvec (n : nat) (rows : list (list T)) (g : list T) : list T :=
   end.
 
 (* the element f.gradient(x) *)
-Fixpoint fgrad (f : fexpr) (x : list T) : list T :=
+Fixpoint fgrad (w : list T) (f : fexpr) (x : list T) : list T :=
   match f with
   | FL2Sq _ => vscal (of_Z 2) x                                   (* ScalingOperator(2) *)
-  | FL2 _ => let nrm := rt (dot x x) in
+  | FL2 _ => let nrm := rt (wdot w x x) in
              if nrm =? nzero then vconst (length x) nzero else map (fun a => a / nrm) x
   | FL1 _ => map nsign x
   | FConst n _ => vconst n nzero                                  (* ZeroOperator *)
-  | FLScal f s => vscal s (fgrad f x)                             (* s * f.gradient *)
-  | FRScal f s => vscal s (fgrad f (vscal s x))                   (* s * f.gradient * s *)
-  | FSum f g => vadd (fgrad f x) (fgrad g x)
-  | FScalarSum f _ => vadd (fgrad f x) (vconst (fdim f) nzero)
-  | FTransl f t => fgrad f (vsub x t)                             (* f.gradient * (I - t) *)
-  | FQP f a u _ => vadd (vadd (fgrad f x) (vscal (of_Z 2 * a) x)) u   (* f.gradient + 2a I + Const(u) *)
-  | FProd f g => vadd (vscal (feval g x) (fgrad f x)) (vscal (feval f x) (fgrad g x))
+  | FLScal f s => vscal s (fgrad w f x)                           (* s * f.gradient *)
+  | FRScal f s => vscal s (fgrad w f (vscal s x))                 (* s * f.gradient * s *)
+  | FSum f g => vadd (fgrad w f x) (fgrad w g x)
+  | FScalarSum f _ => vadd (fgrad w f x) (vconst (fdim f) nzero)
+  | FTransl f t => fgrad w f (vsub x t)                           (* f.gradient * (I - t) *)
+  | FQP f a u _ => vadd (vadd (fgrad w f x) (vscal (of_Z 2 * a) x)) u   (* f.gradient + 2a I + Const(u) *)
+  | FProd f g => vadd (vscal (feval w g x) (fgrad w f x)) (vscal (feval w f x) (fgrad w g x))
   | FQuot f g =>
-      let fx := feval f x in let gx := feval g x in
-      vadd (vscal (none_ / gx) (fgrad f x)) (vscal (- fx / (gx * gx)) (fgrad g x))
-  | FRVec f v => vmul v (fgrad f (vmul v x))                      (* v * f.gradient * v *)
-  | FCompM f n rows => mtvec n rows (fgrad f (mvec rows x))       (* op'(x)^* (f.gradient(op x)) *)
+      let fx := feval w f x in let gx := feval w g x in
+      vadd (vscal (none_ / gx) (fgrad w f x)) (vscal (- fx / (gx * gx)) (fgrad w g x))
+  | FRVec f v => vmul v (fgrad w f (vmul v x))                    (* v * f.gradient * v *)
+  | FCompM f w' n rows => mtvec n rows (fgrad w' f (mvec rows x)) (* op'(x)^* (f.gradient(op x)), ^* = transpose *)
   end.
 
 End FModel.
